@@ -175,8 +175,19 @@ def _run_history(hist, fresh_registry_between, probe=False):
     if probe:
         # a sensitive victim corpus run from the state the history left behind (sources first, headers last,
         # so that a header of the corpus itself cannot mask what an earlier header of the history did)
-        return [hashlib.md5(repr(observe_file(n, t)).encode()).hexdigest()[:10] for n, t in probe_corpus()]
+        # every victim is observed in its own child forked from the state the history left behind, so that one
+        # victim (e.g. a guarded header of the corpus) cannot pollute -- and thereby mask -- the next
+        out = []
+        for n, t in probe_corpus():
+            r = in_pristine_child(_observe_digest, n, t)
+            out.append(r[1] if r[0] == "ok" else "child-error")
+        return out
     return obs, states
+
+
+def _observe_digest(n, t):
+    import hashlib
+    return hashlib.md5(repr(observe_file(n, t)).encode()).hexdigest()[:10]
 
 
 _probe = None
